@@ -187,6 +187,10 @@ def run_case(case):
 def replay(case):
     from dvc_data.hashfile.tree import MergeError, _merge
 
+    if case.get("public_fault"):
+        r = public_fault({"kind": case["kind"], "only": [case["public_fault"], tuple(case["a"]), tuple(case["o"]),
+                                                         tuple(case["t"]), case["policy"]]})
+        return [(sg, d) for sg, d, _c in r["viol"]]
     if case.get("public"):
         vals = list(itertools.product((0, 1, 2), repeat=2))
         with World() as w:
@@ -247,6 +251,64 @@ def public_one(odb, infos, a, o, t, pol):
     return viol, "ok"
 
 
+def public_fault(case):
+    """The ancestor directory object is missing / truncated / not a list: no silently wrong result."""
+    import os
+
+    from dvc_data.hashfile.tree import merge
+
+    res = {"n": 0, "trans": 0, "states": [], "outcomes": set(), "nontrivial": set(), "viol": [],
+           "vac": {"public_fault_runs": 0}}
+    vals = list(itertools.product((0, 1, 2), repeat=2))
+    sigs = set()
+    only = case.get("only")
+    for fault in ("missing", "truncated", "not-a-list"):
+        for a in vals:
+            if a == (0, 0) or (only and (fault, a) != (only[0], only[1])):
+                continue
+            with World() as w:
+                odb, infos = _public_store(w, case["kind"], PKEYS, vals)
+                p = odb.oid_to_path(infos[a].value)
+                os.chmod(p, 0o644)
+                if fault == "missing":
+                    os.unlink(p)
+                elif fault == "truncated":
+                    data = open(p, "rb").read()
+                    open(p, "wb").write(data[: max(1, len(data) // 2)])
+                else:
+                    open(p, "wb").write(b'{"md5": "x"}')
+                for o in vals:
+                    for t in vals:
+                        if infos[o].value == infos[a].value or infos[t].value == infos[a].value:
+                            continue  # ours / theirs must stay loadable
+                        for pol in ("default", "all"):
+                            if only and (o, t, pol) != (only[2], only[3], only[4]):
+                                continue
+                            res["n"] += 1
+                            res["trans"] += 1
+                            res["vac"]["public_fault_runs"] += 1
+                            ra = {k: x for k, x in zip(PKEYS, a) if x}
+                            ro = {k: x for k, x in zip(PKEYS, o) if x}
+                            rt = {k: x for k, x in zip(PKEYS, t) if x}
+                            expect, conflicts = ref.three_way(ra, ro, rt)
+                            try:
+                                m = merge(odb, infos[a], infos[o], infos[t], allowed=POLICIES[pol])
+                            except Exception as e:  # noqa: BLE001
+                                res["outcomes"].add(type(e).__name__)
+                                continue
+                            got = {"/".join(k): oid.value for k, _m, oid in m}
+                            exp = {"/".join(k): H[x] for k, x in expect.items()}
+                            res["outcomes"].add("returned")
+                            if conflicts or got != exp:
+                                sig = f"merge-with-unreadable-ancestor-returned-wrong-result/{fault}"
+                                if sig not in sigs:
+                                    sigs.add(sig)
+                                    res["viol"].append((sig, f"ancestor {a} ours {o} theirs {t}: got {got}, true merge {exp if not conflicts else 'CONFLICT'}",
+                                                        {"public_fault": fault, "kind": case["kind"], "a": a, "o": o, "t": t, "policy": pol}))
+    res["outcomes"] = sorted(res["outcomes"])
+    return res
+
+
 def run_public(case):
     res = {"n": 0, "trans": 0, "states": set(), "outcomes": set(), "nontrivial": set(),
            "viol": [], "vac": {"public_merge_ok": 0}}
@@ -288,12 +350,14 @@ def run(ctx):
         "MergeError is always an acceptable outcome (the property allows failing with a merge error)",
         "values differ in hash (and the md5 metadata field derived from it) only",
     ]
-    ctx.require("success_both_changed", "merge_error", "conflicts", "public_merge_ok")
+    ctx.require("success_both_changed", "merge_error", "conflicts", "public_merge_ok", "public_fault_runs")
     cs = [{"keys": keys, "a": a, "policies": pols}
           for a in itertools.product((0, 1, 2), repeat=len(keys))]
     ctx.run_cases("run_case", cs, chunksize=1, det=2)
     pub = [{"kind": k, "policies": pols} for k in ("local", "base")]
     for case, res in ctx.pmap("run_public", pub, 1):
+        ctx.absorb(case, res)
+    for case, res in ctx.pmap("public_fault", [{"kind": k} for k in ("local", "base")], 1):
         ctx.absorb(case, res)
 
 
